@@ -82,9 +82,16 @@ type rClient struct {
 	primary   string
 	endpoints []string
 	state     map[string]int
+	// created[u]: position in the network's event order at which the client's
+	// endpoint object for u was (re)created; a health check that started before
+	// it reports to the discarded object
+	created map[string]int
 }
 
-func (m *rClient) update(primary string, secondaries []string) {
+func (m *rClient) update(primary string, secondaries []string, at int) {
+	if m.created == nil {
+		m.created = map[string]int{}
+	}
 	old := map[string]bool{}
 	for _, e := range m.endpoints {
 		old[e] = true
@@ -94,6 +101,7 @@ func (m *rClient) update(primary string, secondaries []string) {
 		m.primary = primary
 		eps = append(eps, primary)
 		m.state[primary] = stAlive // the primary endpoint object is always created anew
+		m.created[primary] = at
 	}
 	for _, s := range secondaries {
 		if s == "" || s == primary {
@@ -101,6 +109,7 @@ func (m *rClient) update(primary string, secondaries []string) {
 		}
 		if !old[s] {
 			m.state[s] = stAlive
+			m.created[s] = at
 		}
 		eps = append(eps, s)
 	}
@@ -232,7 +241,7 @@ func execC20(r *Run) {
 		client.SetHealthChecks(r.Cfg("fix_health") == 1), client.SetAttemptToReviveEndpoints(r.Cfg("fix_revive") == 1),
 		client.SetHasherFunction(hashing.NewSha256Hasher), client.SetLogger(lg), client.SetAPIKey("k")}
 	model := &rClient{state: map[string]int{}}
-	model.update(urls[0], urls[1:known])
+	model.update(urls[0], urls[1:known], 0)
 	var cl *client.HTTPClient
 	var err error
 	budget := (retries + 1) * (n + 3) * 3
@@ -290,17 +299,23 @@ func execC20(r *Run) {
 				health = append(health, q)
 			}
 		}
-		sort.SliceStable(health, func(i, j int) bool { return health[i].done < health[j].done })
-		applyHealth := func(upTo time.Duration) {
-			for len(health) > 0 && health[0].done <= upTo {
+		sort.SliceStable(health, func(i, j int) bool { return health[i].doneSeq < health[j].doneSeq })
+		applyHealth := func(upTo int) {
+			for len(health) > 0 && health[0].doneSeq <= upTo {
 				q := health[0]
 				health = health[1:]
+				r.Count("net.health_checks")
+				if model.created[hostURL(q.host)] > q.seq {
+					// the topology was replaced while this check was in flight: its
+					// verdict went to an endpoint object nobody selects from any more
+					r.Count("probe.stale_health_verdict")
+					continue
+				}
 				if q.err == "" && q.status >= 200 && q.status < 300 {
 					model.state[hostURL(q.host)] = stAlive
 				} else {
 					model.state[hostURL(q.host)] = stDead
 				}
-				r.Count("net.health_checks")
 			}
 		}
 		defer applyHealth(1 << 62)
@@ -309,13 +324,23 @@ func execC20(r *Run) {
 			r.Logf("REQ %s %s %s -> %d %s", q.host, q.method, q.path, q.status, trunc(q.err, 40))
 			failed := q.err != "" || q.status >= 500
 			if q.kind != "health" {
-				applyHealth(q.at)
+				applyHealth(q.seq)
 			}
 			switch q.kind {
 			case "health":
 				continue
 			case "discovery":
 				r.Count("net.discovery")
+				// inside a read call discovery only runs after a selection found
+				// nothing — which, with revival on, has just revived every endpoint
+				if isRead && revive {
+					for _, e := range model.endpoints {
+						if model.state[e] == stDead {
+							model.state[e] = stUnknown
+						}
+					}
+					r.Count("probe.certain_revive")
+				}
 			case "write":
 				if q.method == "POST" && firstWrite {
 					firstWrite = false
@@ -344,7 +369,12 @@ func execC20(r *Run) {
 				r.Count("net.reads")
 			}
 			touched[u] = true
-			applyHealth(q.done)
+			// a request to an endpoint the model holds dead, not flagged above, means
+			// a selection failed unseen and revived everything
+			if model.state[u] == stDead {
+				blur()
+			}
+			applyHealth(q.doneSeq)
 			// a request that follows a redirect is the transport's doing, not an
 			// endpoint selection: its failure is charged to the endpoint that was
 			// selected (the one that answered 301), its target keeps its state
@@ -365,7 +395,7 @@ func execC20(r *Run) {
 			switch {
 			case q.status == http.StatusMovedPermanently:
 				if p, s, ok := shardsToUpdate(q.resp); ok {
-					model.update(p, s)
+					model.update(p, s, q.doneSeq)
 					r.Count("probe.redirect_taught_topology")
 				} else {
 					model.state[u] = stUnknown // the redirect hook fails on an undecodable body
@@ -374,20 +404,23 @@ func execC20(r *Run) {
 				model.state[u] = stDead
 				blur()
 			case q.status >= 400:
-				if q.kind == "read" {
-					model.state[u] = stDead // callAny marks the endpoint dead on any failed read
+				if q.kind == "read" || q.kind == "discovery" {
+					model.state[u] = stDead // callAny and discover mark the endpoint dead on any failed request
 					blur()
 				}
 			default:
 				model.state[u] = stAlive
 				if q.kind == "discovery" && q.path == "/info/shards" {
 					if p, s, ok := shardsToUpdate(q.resp); ok {
-						model.update(p, s)
+						model.update(p, s, q.doneSeq)
 					}
 				}
 			}
 		}
 		if callErr != nil {
+			// the call's own health checks are over before its last selection (a
+			// background check completing later only loses a verdict here)
+			applyHealth(1 << 62)
 			// whatever the call touched without a definite verdict is unknown now
 			for e := range touched {
 				if model.state[e] == stAlive {
